@@ -204,7 +204,100 @@ fn opcode_boundaries(ctx: &mut Ctx) {
     }
 }
 
+/// one of six ways a context can go on once the receipt count is near the limit; every handler ends the context
+fn event_handlers(sel: u8, out: &mut Vec<Instruction>) {
+    use fuel_asm::op;
+    // r20 = selector; handler k runs when r20 == k
+    let handlers: Vec<Vec<Instruction>> = vec![
+        vec![op::ret(RegId::ONE)],
+        vec![op::movi(0x23, 8), op::retd(RegId::IS, 0x23)],
+        vec![op::log(RegId::ONE, RegId::ZERO, RegId::ZERO, RegId::ZERO), op::ret(RegId::ONE)],
+        vec![op::not(0x23, RegId::ZERO), op::lw(0x24, 0x23, 0)],                       // VM panic (MemoryOverflow)
+        vec![op::rvrt(RegId::ONE)],
+        vec![op::log(RegId::ONE, RegId::ONE, RegId::ZERO, RegId::ZERO), op::log(RegId::ONE, RegId::ONE, RegId::ONE, RegId::ZERO),
+             op::log(RegId::ONE, RegId::ONE, RegId::ONE, RegId::ONE), op::movi(0x23, 3), op::retd(RegId::IS, 0x23)],
+    ];
+    for (k, h) in handlers.iter().enumerate() {
+        out.push(op::movi(0x21, k as u32));
+        out.push(op::eq(0x22, sel, 0x21));
+        out.push(op::jnzf(0x22, RegId::ZERO, 1));
+        out.push(op::jmpf(RegId::ZERO, h.len() as u32));
+        out.extend(h.iter().copied());
+    }
+    out.push(op::ret(RegId::ZERO));
+}
+
+/// Receipt-limit stress: the script logs N receipts, calls `mid` (which logs j more, calls `leaf`, and then does its own
+/// event), `leaf` does its event, finally the script does its event; N sweeps a window so that the count passes
+/// MAX_RECEIPTS-3 … MAX_RECEIPTS inside the nested calls with every kind of next event (RET, RETD, LOG, VM panic, RVRT).
+fn receipt_limit(ctx: &mut Ctx) {
+    use fuel_asm::op;
+    const MAX: u64 = u16::MAX as u64;
+    const A_WORD: u16 = (fuel_vm::call::CallFrame::a_offset() / 8) as u16;
+    const B_WORD: u16 = (fuel_vm::call::CallFrame::b_offset() / 8) as u16;
+    let leaf: Vec<Instruction> = { let mut c = vec![op::lw(0x20, RegId::FP, A_WORD)]; event_handlers(0x20, &mut c); c };
+    let mid: Vec<Instruction> = {
+        let mut c = vec![
+            op::gtf_args(g::R_BASE, RegId::ZERO, fuel_asm::GTFArgs::ScriptData),
+            op::lw(0x20, RegId::FP, A_WORD),
+            op::lw(0x25, RegId::FP, B_WORD),
+            // b times: log
+            op::jnzf(0x25, RegId::ZERO, 1), op::jmpf(RegId::ZERO, 3),
+            op::log(RegId::ZERO, RegId::ONE, RegId::ZERO, RegId::ZERO), op::subi(0x25, 0x25, 1), op::jnzb(0x25, RegId::ZERO, 1),
+            op::addi(g::R_T1, g::R_BASE, g::OFF_CALLS + 48), op::addi(g::R_T2, g::R_BASE, g::OFF_ASSETS),
+            op::call(g::R_T1, RegId::ZERO, g::R_T2, RegId::CGAS),
+        ];
+        event_handlers(0x20, &mut c); c
+    };
+    let per = ctx.n(10, 60);
+    for d in 0..10u64 {
+        for v in 0..per {
+            let n = MAX - d;                       // logs by the script before the call: MAX-9 … MAX
+            let (ev_leaf, ev_mid, ev_script, j) = (ctx.rng.below(6), ctx.rng.below(6), ctx.rng.below(6), ctx.rng.below(3));
+            let n = n.saturating_sub(ctx.rng.below(3)); // jitter
+            let mut script = vec![
+                op::gtf_args(g::R_BASE, RegId::ZERO, fuel_asm::GTFArgs::ScriptData),
+                op::movi(0x30, n as u32),
+                op::log(RegId::ZERO, RegId::ZERO, RegId::ZERO, RegId::ZERO), op::subi(0x30, 0x30, 1), op::jnzb(0x30, RegId::ZERO, 1),
+                op::addi(g::R_T1, g::R_BASE, g::OFF_CALLS), op::addi(g::R_T2, g::R_BASE, g::OFF_ASSETS),
+                op::call(g::R_T1, RegId::ZERO, g::R_T2, RegId::CGAS),
+                op::movi(0x20, ev_script as u32),
+            ];
+            event_handlers(0x20, &mut script);
+            let seed = ctx.rng.next();
+            let tag = format!("receipt-limit logs={n} mid-logs={j} leaf={ev_leaf} mid={ev_mid} script={ev_script} seed={seed:#x} v={v}");
+            let (l2, m2, s2) = (leaf.clone(), mid.clone(), script.clone());
+            let case = match ctx.guard(move || g::fixed_case(seed, &[m2, l2], s2, &[(ev_mid, j), (ev_leaf, 0)], 3_000_000)) {
+                Ok(c) => c, Err(m) => { ctx.note(&format!("receipt-limit case rejected: {m}")); ctx.count("receipts.case-rejected"); continue; }
+            };
+            let mut vm: Vm = case.fresh_vm();
+            let r = ctx.guard(|| vm.transact(case.ready()).map(|_| ()).map_err(|e| g::err_name(&e)));
+            let host_panicked = r.is_err();
+            classify(ctx, &tag, "receipts", r);
+            if host_panicked { continue; }
+            let rs = vm.receipts();
+            let kind = |r: &fuel_tx::Receipt| match r { fuel_tx::Receipt::Panic { .. } => "Panic", fuel_tx::Receipt::ScriptResult { .. } => "ScriptResult", fuel_tx::Receipt::Return { .. } => "Return",
+                fuel_tx::Receipt::ReturnData { .. } => "ReturnData", fuel_tx::Receipt::Log { .. } => "Log", fuel_tx::Receipt::Call { .. } => "Call", fuel_tx::Receipt::Revert { .. } => "Revert", _ => "Other" };
+            let len = rs.len() as u64;
+            if len > MAX { ctx.oracle_fail("more-receipts-than-max", &tag, &format!("{len}")); }
+            let k2 = if len > MAX - 2 { kind(&rs[(MAX - 2) as usize]) } else { "-" };
+            let k1 = if len > MAX - 1 { kind(&rs[(MAX - 1) as usize]) } else { "-" };
+            if (k2 != "-" && k2 != "Panic" && k2 != "ScriptResult") || (k1 != "-" && k1 != "ScriptResult") {
+                ctx.oracle_fail("reserved-receipt-slot-taken", &tag, &format!("slot MAX-2 holds {k2}, slot MAX-1 holds {k1}"));
+            }
+            if !rs.iter().any(|r| matches!(r, fuel_tx::Receipt::ScriptResult { .. })) { ctx.oracle_fail("no-script-result-receipt", &tag, &format!("{len} receipts")); }
+            ctx.count(&format!("receipts.len.max-{}", MAX.saturating_sub(len).min(9)));
+            let depth_at = |i: usize| rs[..i].iter().fold(0i64, |d, r| match r { fuel_tx::Receipt::Call { .. } => d + 1, fuel_tx::Receipt::Return { .. } | fuel_tx::Receipt::ReturnData { .. } if d > 0 => d - 1, _ => d });
+            for slot in [MAX - 3, MAX - 2] { if len > slot { ctx.count(&format!("receipts.slot-max-{}.{}.depth{}", MAX - slot, kind(&rs[slot as usize]), depth_at(slot as usize).min(2))); } }
+            if rs.iter().any(|r| matches!(r, fuel_tx::Receipt::Panic { reason, .. } if *reason.reason() == fuel_asm::PanicReason::TooManyReceipts)) { ctx.count("receipts.too-many-receipts-panic"); }
+            ctx.emit(&format!("tail {len} {k2} {k1}"), "ok");
+            ctx.distinct(tag.as_bytes());
+        }
+    }
+}
+
 pub fn run(ctx: &mut Ctx) {
+    receipt_limit(ctx);
     opcode_boundaries(ctx);
     // (1) cost sampling: unmutated generated programs, default schedule, single-stepped
     let m = ctx.n(120, 1200);
